@@ -249,6 +249,11 @@ def make_dict_unstructure_fn(
         if origin is not None:
             cl = origin
 
+    for base in getattr(cl, "__orig_bases__", ()):
+        if is_generic(base) and not str(base).startswith("typing.Generic"):
+            mapping = generate_mapping(base, mapping)
+            break
+
     # We keep track of what we're generating to help with recursive
     # class graphs.
     try:
